@@ -126,6 +126,8 @@ def run_engine(ob, cubes, workdir, tag):
            "-seed", str(ob.get("seed", 1)), "-prunems", str(ob.get("prunems", 200))]
     if ob.get("cross"):
         cmd.append("-cross")
+    if ob.get("decide", True):
+        cmd.append("-decide")
     for k, v in ob.get("consts", {}).items():
         cmd += ["-const", "%s=%d" % (k, v)]
     t0 = time.time()
